@@ -12,6 +12,8 @@ behind a remainder test; its swap loop validates the limit, moves the tick curso
 liquidity_net with the program's sign table and assigns (token_a, token_b) as the program
 does; liquidity quotes use the program's three-case table with round-up for deposits and
 round-down for withdrawals and put slippage on the safe side.
+Also decided: the program side of the comparison is the same on both packagings (C08.R1 instances re-decided
+here);
 Not decided: numeric equality of the two arithmetic formulations (U256 vs U256Muldiv), "never
 fails where the program succeeds", the WASM / TypeScript packaging."""
 import re
